@@ -137,6 +137,7 @@ func c16Run(w *W) {
 	_ = s.SetOption(mangos.OptionRecvDeadline, 2*time.Millisecond)
 	_ = s.SetOption(mangos.OptionSendDeadline, 2*time.Millisecond)
 	if kind == "sub" {
+		mustSet(w, s, mangos.OptionSubscribe, "zz-another-topic") // (a non-empty subscription is looked at first)
 		mustSet(w, s, mangos.OptionSubscribe, "")
 	}
 	attached, detached := 0, 0
@@ -612,6 +613,7 @@ func c16Real(w *W) {
 	mustSet(w, s, mangos.OptionMaxRecvSize, limit)
 	mustSet(w, s, mangos.OptionRecvDeadline, 80*time.Millisecond)
 	if kind == "sub" {
+		mustSet(w, s, mangos.OptionSubscribe, "zz-another-topic") // (a non-empty subscription is looked at first)
 		mustSet(w, s, mangos.OptionSubscribe, "")
 	}
 	url := tran + "://" + loopIP + ":0"
